@@ -232,6 +232,11 @@ DoRespond(s, e) ==
             s2 == IF complete THEN Callback(s1, e, c) ELSE s1
         IN Done([s2 EXCEPT !.ctx[c] = IF complete THEN [cx1 EXCEPT !.bdone = TRUE] ELSE cx1])
 
+(* service MsgPause/Start/KillRequestContext sent to a feed's context: the
+   service module refuses direct operations on module-owned contexts
+   (CheckAuthority with checkModule) *)
+DoSvcDirect(s, e) == FailW(s, "module_context")
+
 DoBeginBlock(s, e) == Done([s EXCEPT !.inb = TRUE, !.now = s.now + e.dt])
 
 (* service/abci.go EndBlocker *)
@@ -296,6 +301,7 @@ Apply0(s, e) ==
     [] e.name = "PauseFeed"  -> DoPauseFeed(s, e)
     [] e.name = "EditFeed"   -> DoEditFeed(s, e)
     [] e.name = "Respond"    -> DoRespond(s, e)
+    [] e.name = "SvcDirect"  -> DoSvcDirect(s, e)
     [] e.name = "BeginBlock" -> DoBeginBlock(s, e)
     [] e.name = "EndBlock"   -> DoEndBlock(s, e)
     [] OTHER -> FailW(s, "unknown")
@@ -372,7 +378,7 @@ C17_History(s, e, t) ==
         lh == t.feeds[f].lh
     IN /\ Len(vs) <= lh
        /\ \A i \in 1..(Len(vs) - 1) : vs[i].t > vs[i + 1].t
-       /\ t.fmtBad = 0 /\ t.gvBad = 0
+       /\ t.fmtBad = 0
        /\ f \in DOMAIN s.feeds =>
             LET new == IF f \in Appending(s, e, t) THEN 1 ELSE 0
                 kept == Len(vs) - new
@@ -457,7 +463,11 @@ Respond ==
        \/ \E x \in Xs : Step([NoEv EXCEPT !.name = "Respond", !.who = who, !.feed = f, !.kind = "val", !.x = x])
        \/ Step([NoEv EXCEPT !.name = "Respond", !.who = who, !.feed = f, !.kind = "err"])
 
-Next == BeginBlock \/ EndBlock \/ CreateFeed \/ StartFeed \/ PauseFeed \/ EditFeed \/ Respond
+SvcDirect ==
+  st.inb /\ \E who \in Users, f \in DOMAIN st.feeds, k \in {"pause", "start", "kill"} :
+    Step([NoEv EXCEPT !.name = "SvcDirect", !.who = who, !.feed = f, !.kind = k])
+
+Next == BeginBlock \/ EndBlock \/ CreateFeed \/ StartFeed \/ PauseFeed \/ EditFeed \/ Respond \/ SvcDirect
 Spec == Init /\ [][Next]_vars
 
 Rejects(h) == Cardinality({i \in DOMAIN h : ~h[i].ok})
